@@ -164,3 +164,11 @@ impl State {
         *o == (State { code: o.code, debug_map: o.debug_map, flow_stack: o.flow_stack, ..*self })
     }
 }
+
+// index of the innermost open definition of the current context (-1: none)
+spec fn top_fun_from(fs: Seq<Flow>, lo: int, k: int) -> int
+    decreases k - lo
+{
+    if k <= lo { -1 } else if fs[k - 1] is Fun { k - 1 } else { top_fun_from(fs, lo, k - 1) }
+}
+spec fn top_fun(s: &State) -> int { top_fun_from(s.flow_stack@, s.ctx.fs_len as int, s.flow_stack@.len() as int) }
